@@ -1,7 +1,7 @@
 (* Quote/Entry.v — entry points used by the C03 correspondence: every function
    takes its arguments as a list of strings and returns one canonical string.
    The conventions are mirrored in harness/impl/c03.py and harness/check_C03.py. *)
-From MV Require Import Base.Strs Quote.Sh Quote.Ninja Quote.Rsp Quote.Rule Quote.Spec.
+From MV Require Import Base.Strs Quote.Sh Quote.Ninja Quote.Rsp Quote.Rule Quote.Spec Quote.Templ.
 Open Scope N_scope.
 
 Definition SEP1 : str := [1].   (* between fields *)
@@ -81,6 +81,26 @@ Definition parse_exe (args : list str) : option exe_in :=
   | _ => None
   end.
 
+Definition render_p (r : pres) : str :=
+  match r with POk ps rest => 79 :: tlist ps ++ SEP1 ++ rest | PErr => [69] end.
+Definition render_s (r : sres) : str := match r with SOk l => 79 :: tlist l | SErr => exc end.
+
+Fixpoint split_on (c : char) (s : str) : list str :=
+  match s with
+  | [] => [[]]
+  | x :: r => if x =? c then [] :: split_on c r
+              else match split_on c r with h :: t => (x :: h) :: t | [] => [[x]] end
+  end.
+
+(* dictionary entry: key 0x02 "S" 0x02 value   |   key 0x02 "L" 0x02 v1 0x02 v2 ... *)
+Definition parse_entry (e : str) : str * tval :=
+  match split_on 2 e with
+  | k :: [83] :: v :: _ => (k, TStr v)
+  | k :: [76] :: vs => (k, TList vs)
+  | k :: _ => (k, TStr [])
+  | [] => ([], TStr [])
+  end.
+
 Definition q : str := [63].
 
 Definition run (fn : str) (args : list str) : str :=
@@ -137,6 +157,32 @@ Definition run (fn : str) (args : list str) : str :=
                     | NOk c => 79 :: tlist (gcc_rsp_args c)
                     | NErr => [69] end
     | _ => q end
+  else if str_eqb fn (s2l "npaths") then
+    match args with [s] => render_p (ninja_paths s) | _ => q end
+  else if str_eqb fn (s2l "bline") then
+    match args with
+    | rule :: rest =>
+        let '(outs, r1) := split_mark rest in
+        let '(imp, r2) := split_mark r1 in
+        let '(ins, r3) := split_mark r2 in
+        let '(deps, ords) := split_mark r3 in
+        render_q (build_line outs imp rule ins deps ords)
+    | _ => q end
+  else if str_eqb fn (s2l "subst") then
+    let '(cmd, d) := split_mark args in
+    render_s (substitute_values cmd (map parse_entry d))
+  else if str_eqb fn (s2l "evalcmd") then
+    match args with
+    | sr :: br :: cs :: rest =>
+        let '(cmd, d0) := split_mark rest in
+        let '(d, _) := split_mark d0 in      (* further sections (inputs, outputs) are for the adapter *)
+        render_s (eval_custom_cmd sr br cs (map parse_entry d) cmd)
+    | _ => q end
+  else if str_eqb fn (s2l "testcmd") then
+    let '(w, r1) := split_mark args in
+    let '(f, r2) := split_mark r1 in
+    let '(a, t) := split_mark r2 in
+    tlist (test_cmdline w f a t)
   else if str_eqb fn (s2l "cunesc") then
     match args with [s] => c_unescape_bs s | _ => q end
   else q.
